@@ -536,7 +536,7 @@ fn history_part(rep: &mut Report) {
                 let entries: Vec<ScriptEntry<'_>> = seq.iter().map(|&k| kinds[k].1.compile()).collect();
                 let mut bounds = vec![0usize];
                 let mut calls_at = vec![0usize];
-                let mut results: Vec<Option<bool>> = Vec::new();
+                let mut results: Vec<Option<u8>> = Vec::new();
                 macro_rules! drive {
                     ($stream:expr) => {{
                         let mut stream = $stream;
@@ -550,7 +550,12 @@ fn history_part(rep: &mut Report) {
                             }
                         } else {
                             for e in &entries {
-                                results.push(Some(stream.next(e).is_ok()));
+                                // 0 = Ok, 1 = I/O error, 2 = validation error
+                                results.push(Some(match stream.next(e) {
+                                    Ok(()) => 0u8,
+                                    Err(metrique_writer::IoStreamError::Io(_)) => 1,
+                                    Err(metrique_writer::IoStreamError::Validation(_)) => 2,
+                                }));
                                 bounds.push(w.got.lock().unwrap().len());
                                 calls_at.push(*w.calls.lock().unwrap());
                             }
@@ -585,9 +590,13 @@ fn history_part(rep: &mut Report) {
                         if let Err(msg) = verdict {
                             st.v.add(format!("history:bytes-of-entry-differ:{}", kinds[k].0), format!("entry {i} ({}) of the history: {msg}", kinds[k].0), replay.clone());
                         }
-                        if let Some(ok) = results[i] {
-                            if ok != (valid && !faulted) {
-                                st.v.add(format!("history:result:{}", kinds[k].0), format!("entry {i} ({}) returned ok={ok}, expected {}", kinds[k].0, valid && !faulted), replay.clone());
+                        if let Some(got) = results[i] {
+                            // an entry the formatter rejects is a validation error (nothing is
+                            // written, so no fault can hit it); a hard write error is an I/O error
+                            let want = if !valid { 2u8 } else if faulted { 1 } else { 0 };
+                            if got != want {
+                                let name = |r: u8| ["Ok", "an I/O error", "a validation error"][r as usize];
+                                st.v.add(format!("history:result:{}", kinds[k].0), format!("entry {i} ({}) returned {}, expected {}", kinds[k].0, name(got), name(want)), replay.clone());
                             }
                         }
                     }
